@@ -28,6 +28,8 @@ import (
 //     by a restart in this session, or completed on a previous connection); G's value if there is none
 //   M server-final with an empty verifier ("v=")
 //   N server-first of a server that does NOT know the password: right nonce and salt, iteration count 0
+//   P server-first that is fine in every respect but has an iteration count of 10000001 (only in four
+//     fixed sequences: the client really runs ten million PBKDF2 rounds)
 //   O server-final made without the password: ServerKey from an all-zero SaltedPassword, over the
 //     messages of the running exchange (after N: client-first, N, client-final-without-proof)
 
@@ -186,6 +188,9 @@ func c15Conn(c *c15Case, seq string, given smtp.Auth, shared *c15Shared) (*c15Re
 				authMessage = cf.Bare + "," + sfValid + "," + string(resp)[:i]
 				cfinOK = true
 				shared.lastValidSig = srvSig(pass, authMessage)
+			case 'P':
+				// a huge but well-formed iteration count: nothing to verify here (too expensive); what
+				// matters is that the client does not report success at this point
 			case 'N':
 				// an iteration count of 0 is not a positive number, but answering it is not yet a breach:
 				// what matters is what the client accepts as proof afterwards
@@ -238,6 +243,13 @@ func c15Conn(c *c15Case, seq string, given smtp.Auth, shared *c15Shared) (*c15Re
 				}
 				rogueFirst = "r=" + n + p.NonceSuffix + ",s=" + base64.StdEncoding.EncodeToString(p.Salt) + ",i=0"
 				challenge = rogueFirst
+			case 'P':
+				// a server-first that is fine in every respect, with an iteration count of ten million and one
+				n := "madeupnonce"
+				if cf != nil {
+					n = cf.Nonce
+				}
+				challenge = "r=" + n + p.NonceSuffix + ",s=" + base64.StdEncoding.EncodeToString(p.Salt) + ",i=10000001"
 			case 'O':
 				// server-final made WITHOUT the password: ServerKey derived from an all-zero SaltedPassword,
 				// over the messages of the running exchange
@@ -421,7 +433,7 @@ func c15Run(c c15Case) []*core.Violation {
 
 func c15Describe() {
 	rec := core.Rec("C15")
-	rec.Rule = "bounded-exhaustive: every server message sequence of length <= 5 (PLUS variants <= 4) in quick and <= 7 (PLUS <= 6) in thorough over the alphabet {A valid server-first, B server-first with a foreign nonce (longer than the combined nonce), C with truncated nonce, D malformed server-first, E valid server-final, F server-final made with another key, G server-final over empty state, H empty challenge, I junk, J 235, K 535, L replayed valid server-final of an earlier exchange of the same Auth object, M server-final with an empty verifier, N server-first with the right nonce and salt but iteration count 0 (a server that does not know the password), O server-final made from an all-zero SaltedPassword over the running exchange}, for SCRAM-SHA-1, SCRAM-SHA-256 and both PLUS variants (over a real TLS 1.2 handshake on an in-memory connection), driven through smtp.Client.Auth, also with an Auth object that completed a genuine exchange on an earlier connection (reuse, sequences <= 4 / <= 6), and after another Auth value of the same user completed an exchange with a different password against the same salt and iteration count; depth-first with pruning once the client has aborted or the exchange ended. " +
+	rec.Rule = "bounded-exhaustive: every server message sequence of length <= 5 (PLUS variants <= 4) in quick and <= 7 (PLUS <= 6) in thorough over the alphabet {A valid server-first, B server-first with a foreign nonce (longer than the combined nonce), C with truncated nonce, D malformed server-first, E valid server-final, F server-final made with another key, G server-final over empty state, H empty challenge, I junk, J 235, K 535, L replayed valid server-final of an earlier exchange of the same Auth object, M server-final with an empty verifier, N server-first with the right nonce and salt but iteration count 0 (a server that does not know the password), O server-final made from an all-zero SaltedPassword over the running exchange}, plus the sequences HP, HPK, HPM, HPO with P = a well-formed server-first whose iteration count is 10000001, for SCRAM-SHA-1, SCRAM-SHA-256 and both PLUS variants (over a real TLS 1.2 handshake on an in-memory connection), driven through smtp.Client.Auth, also with an Auth object that completed a genuine exchange on an earlier connection (reuse, sequences <= 4 / <= 6), and after another Auth value of the same user completed an exchange with a different password against the same salt and iteration count; depth-first with pruning once the client has aborted or the exchange ended. " +
 		"Oracle (reference tracker of the exchange): Auth returns nil only if, since the last client-first, the valid server-first was answered by a verifying client-final and the valid server-final was acknowledged before the 235; the client sends client-final only after a valid server-first and acknowledges a v= message only when it is the valid one; a complete valid exchange succeeds. " +
 		"Non-trivial: the sequence contains a message that is valid for some exchange (A, E, F, G, L or M). Distinct by (mechanism, sequence)."
 	rec.Assumptions = []string{"PBKDF2 iteration count 4 to keep the enumeration cheap", "known finding scram-bare-235: a 235 is accepted whatever preceded it; counted and excluded by signature"}
@@ -496,6 +508,22 @@ func TestC15Enum(t *testing.T) {
 			}
 		}
 		dfs("")
+	}
+	// a well-formed server-first with a huge iteration count (P): the exchange goes on or fails, it is
+	// never reported as successful at that point. Few sequences only: each costs the client ten million
+	// PBKDF2 rounds.
+	huge := 0
+	for _, mech := range []string{"SCRAM-SHA-1", "SCRAM-SHA-256"} {
+		for _, seq := range []string{"HP", "HPK", "HPM", "HPO"} {
+			huge++
+			if huge%core.Shards != core.Shard {
+				continue
+			}
+			core.Rec("C15").AddExtra("huge_iteration_count_sequences", 1)
+			if v := p.RunOne(c15Case{Mech: mech, Seq: seq}); v != nil {
+				t.Fatalf("VIOLATION-DETAIL property=C15 %s", v)
+			}
+		}
 	}
 	core.Rec("C15").Exhaustive = true
 }
